@@ -682,16 +682,37 @@ pub fn suite_w(out: &mut Out, seed: u64, thorough: bool, filter: &[String], wide
 				6 if wide => 1000usize.min(max as usize - 1),
 				_ => 1 + r.below(40) as usize,
 			};
-			let kind = r.below(4);
-			let w: Vec<f64> = (0..len)
+			let kind = r.below(6);
+			let mut w: Vec<f64> = (0..len)
 				.map(|i| match kind {
 					0 => 1.0,
 					1 => (i + 1) as f64,
-					2 => r.unit() + 0.01,
+					2 | 4 | 5 => r.unit() + 0.01,
 					_ => r.gauss() + 0.3,
 				})
 				.map(|x| (x as V) as f64)
 				.collect();
+			// lagged / lead kernels: exact zeros at the newest end, the oldest end, or scattered
+			if len >= 2 && kind == 4 {
+				let z = 1 + r.below(len as u64 / 2) as usize;
+				if r.chance(1, 2) {
+					for x in w.iter_mut().rev().take(z) {
+						*x = 0.0;
+					}
+				} else {
+					for x in w.iter_mut().take(z) {
+						*x = 0.0;
+					}
+				}
+			}
+			if len >= 3 && kind == 5 {
+				for x in w.iter_mut() {
+					if r.chance(1, 3) {
+						*x = 0.0;
+					}
+				}
+				w[len / 2] = 1.0;
+			}
 			let class = gen::CLASSES[(id as usize) % gen::CLASSES.len()];
 			let xs = gen::stream(&mut r, 200 + 2 * len, class);
 			let case = Case {
